@@ -1023,7 +1023,7 @@ def oracle_ownership(ctx):
 
 
 def forms_case(ctx, method, n, fs, m, Y, Yr, case):
-    """every accepted form of the same option value gives the same result (bit for bit) as the plain Python form, whose result the other
+    """every accepted form of the same option value gives the same result (to 1e-12 of the largest entry) as the plain Python form, whose result the other
     clauses judge; forms established on the unchanged tree: nxseg int / np.int64 / np.int32 / element of np.arange / 0-d integer array;
     dt and pov float / np.float64 / 0-d array (pov = 0 also as int 0, np.int64(0)); method str / np.str_; records writable or read-only."""
     dt, pov = 1.0 / fs, m / n
@@ -1046,7 +1046,9 @@ def forms_case(ctx, method, n, fs, m, Y, Yr, case):
         vcase = dict(case, variant=name)
         with Guard(ctx, method, vcase):
             f, S = sd_est(Y, Yr, kw["dt"], kw["n"], kw["method"], kw["pov"], ro=kw["ro"])
-            if S.shape != S0.shape or not np.array_equal(S, S0) or not np.array_equal(f, f0):
+            # same values up to summation order (1e-12 of the largest entry): an implementation may legitimately route NumPy scalars / 0-d arrays
+            # through another code path than plain Python numbers, the property only fixes the estimate
+            if S.shape != S0.shape or relerr(S, S0) > 1e-12 or not np.allclose(f, f0, rtol=1e-14, atol=0):
                 ofail(ctx, method, "option-form", "%s: result differs from that of the plain Python value (rel. dev %.3g%s)"
                       % (name, relerr(S, S0) if S.shape == S0.shape else float("inf"), "" if np.array_equal(f, f0) else "; frequency vector differs"), vcase)
 
@@ -1108,7 +1110,7 @@ def oracle_forms(ctx):
                     ctx.fail("oracle", "%s(%s) with %s%s raises %s (%s)" % (cname, method, name, ", record read-only" if vi % 2 else "", type(ex).__name__, str(ex)[:120]),
                              case, key="C13:glue:%s:option-form" % cname)
                     continue
-                if Sr.shape != Sexp.shape or not np.array_equal(Sr, Sexp) or not np.array_equal(held, data):
+                if Sr.shape != Sexp.shape or relerr(Sr, Sexp) > 1e-12 or not np.array_equal(held, data):
                     ctx.fail("oracle", "%s(%s) with %s%s: result.Sy differs from SD_est with the plain values (rel. dev %.3g)"
                              % (cname, method, name, ", record read-only" if vi % 2 else "", relerr(Sr, Sexp) if Sr.shape == Sexp.shape else float("inf")),
                              case, key="C13:glue:%s:option-form" % cname)
